@@ -34,7 +34,9 @@ func c03GenOpts(rng *vlib.Rng) idl.GenOpts {
 	o.ExpDoubles = true
 	o.CppIncludes = true
 	o.ExtraNS = true
+	o.DupNS = true
 	o.HardLiterals = true
+	o.ComposedLiterals = true // quotes after backslash pairs ("x\\\"y"), over-escaped quotes, entities
 	o.GoEscapes = false
 	o.NameStress = 2
 	o.UnionDefault = true
@@ -273,6 +275,9 @@ func c03ModelSigs(r *vlib.Run, f *idl.File) {
 			r.Sigf("model/double-exp%v", strings.ContainsAny(v.DblTxt, "eE"))
 		case idl.VString:
 			r.Sigf("model/literal-dq%v-sq%v-bs%v-empty%v", strings.Contains(v.Str, `"`), strings.Contains(v.Str, `'`), strings.Contains(v.Str, `\`), v.Str == "")
+			if strings.Contains(v.Str, `\\"`) || strings.Contains(v.Str, `\\'`) {
+				r.Sig("model/literal-quote-after-backslash-pair")
+			}
 		case idl.VIdent:
 			r.Sigf("model/ident-dots%d", strings.Count(v.Ident, "."))
 		case idl.VList:
@@ -304,8 +309,13 @@ func c03ModelSigs(r *vlib.Run, f *idl.File) {
 			walkV(fl.Default)
 		}
 	}
+	langs := map[string]bool{}
 	for _, ns := range f.Namespaces {
 		r.Sigf("model/namespace-%s-ann%v", ns.Lang, len(ns.Ann) > 0)
+		if langs[ns.Lang] {
+			r.Sig("model/namespace-language-declared-again")
+		}
+		langs[ns.Lang] = true
 	}
 	for _, d := range f.Defs {
 		keys, _ := idl.Accumulate(d.Ann)
@@ -641,8 +651,9 @@ func panicKind(s string) string {
 
 func C03(r *vlib.Run) {
 	r.Rule = "totality: each evaluation is one ParseString call on a hostile input (random bytes, token soup, mutated valid documents, odd literals/numbers, scaling series to 64 KiB) in a child process with recover() and per-input CPU accounting; faithfulness: each evaluation is one parse of a model rendered under one of 8 layouts, compared field by field with the model and across layouts; distinct = distinct input classes, layout vectors and grammar-element signatures present in the compared models"
-	r.Assume("comments are not compared; leading-zero decimals, a backslash before the closing quote and `\\\\` followed by the quote character are not generated (DESIGN C3.1)")
+	r.Assume("comments are not compared; leading-zero decimals and a backslash before the closing quote are not generated (DESIGN C3.1)")
 	c03Faithful(r)
+	r.Require("model/literal-quote-after-backslash-pair", "model/namespace-language-declared-again")
 	c03Totality(r)
 	_ = exec.Command
 }
